@@ -16,6 +16,7 @@ import (
 	"github.com/protolambda/zrnt/eth2/beacon/capella"
 	"github.com/protolambda/zrnt/eth2/beacon/common"
 	"github.com/protolambda/zrnt/eth2/beacon/deneb"
+	"github.com/protolambda/zrnt/eth2/beacon/electra"
 	"github.com/protolambda/zrnt/eth2/beacon/phase0"
 	"github.com/protolambda/ztyp/codec"
 	"github.com/protolambda/ztyp/tree"
@@ -125,6 +126,8 @@ func forkName(st common.BeaconState) string {
 		return "capella"
 	case *deneb.BeaconStateView:
 		return "deneb"
+	case *electra.BeaconStateView:
+		return "electra"
 	}
 	return fmt.Sprintf("%T", unwrap(st))
 }
@@ -141,6 +144,8 @@ func forkIndexOfState(st common.BeaconState) int {
 		return 3
 	case *deneb.BeaconStateView:
 		return 4
+	case *electra.BeaconStateView:
+		return 5 // (never on the chain: electra has no transition; built by electraOf for the accessor sweep)
 	}
 	return -1
 }
@@ -159,6 +164,8 @@ func decodeState(spec *common.Spec, fidx int, b []byte) (common.BeaconState, err
 		return capella.AsBeaconStateView(capella.BeaconStateType(spec).Deserialize(dr))
 	case 4:
 		return deneb.AsBeaconStateView(deneb.BeaconStateType(spec).Deserialize(dr))
+	case 5:
+		return electra.AsBeaconStateView(electra.BeaconStateType(spec).Deserialize(dr))
 	}
 	return nil, fmt.Errorf("unknown fork %d", fidx)
 }
@@ -832,6 +839,14 @@ func (s *sim) afterState(n *simNode, box *stateBox, where string) {
 	}
 	if s.opt.Property == "C15" && s.frng.Chance(1, 2) || s.frng.Chance(1, 12) {
 		s.checkAccessors(box, where)
+		if !s.stop && forkIndexOfState(box.st) == 4 && s.frng.Chance(1, 2) {
+			// the electra state type has accessors but no transition: the same sweep over an electra state
+			// holding this deneb state's content (and generated values in the fields electra adds)
+			if eb := s.electraOf(box); eb != nil {
+				s.res.Stat("accessor_sweeps_electra", 1)
+				s.checkAccessors(eb, where+", carried over into an electra state")
+			}
+		}
 	}
 	slot, _ := box.st.Slot()
 	rt := box.st.HashTreeRoot(tree.GetHashFn())
@@ -1022,6 +1037,26 @@ func run(cfg *Config, opt core.Options, res *core.Result) *sim {
 				res.Stat("slots_skipped_slashed_proposer", 1)
 				blk = nil
 				err = nil
+				if s.steps && (s.opt.Property == "C03" || s.frng.Chance(1, 4)) {
+					// the slashed proposer signs a block for its slot all the same
+					var forged *blockRec
+					var ferr error
+					if p := guard(func() { forged, ferr = w.forgeBySlashedProposer(parent, slot) }); p != nil {
+						s.viol("C03", "panic/slashed-proposer-block/"+p.frame, p.val)
+						break
+					}
+					if ferr == nil && forged != nil {
+						if pm, merr := s.modelOf(parent.post.st); merr == nil {
+							res.Stat("fault_byz_block/header/slashed-proposer", 1)
+							s.passive++
+							s.verdicts(parent, pm, forged.signed, forged.digest, fmt.Sprintf("a block signed by the slot's proposer %d, who is slashed", forged.env.ProposerIndex), "header/slashed-proposer")
+							s.passive--
+							if s.stop {
+								break
+							}
+						}
+					}
+				}
 			}
 			if err != nil && (strings.Contains(err.Error(), "no active validators") || w.activeSetRunsOut(parent, slot)) {
 				// every validator exited or was ejected: the chain (of the specification as well) ends here
